@@ -249,7 +249,7 @@ def _candidates(domain, problem, state, rnd, per_action=40):
             rnd.shuffle(order)
             for lit in order:
                 rows = [r for r in facts.get(lit.name, []) if len(r) == len(lit.signature) and
-                        all(binding.get(p, v) == v for p, v in zip(lit.signature, r) if p in pools)]
+                        all(binding.get(p, v) == v and v in pools[p] for p, v in zip(lit.signature, r) if p in pools)]
                 if rows and rnd.random() < 0.9:
                     row = rnd.choice(rows)
                     for p, v in zip(lit.signature, row):
